@@ -439,6 +439,9 @@ func pnftOps(e *pnftEnv, v pnftVariant) []explore.Op {
 			txOp("TransferPNFT(d\\0x,t,A->B)", s(A), pnfttypes.NewMsgTransferPNFTRequest("d\x00x", "t", A.Bech, B.Bech)),
 			txOp("DeleteDenom(dd,A)", s(A), pnfttypes.NewMsgDeleteDenomRequest("dd", A.Bech)),
 			mint("dd", "tt", A),
+			// free-form data that MENTIONS another account's address: the denom belongs to its owner B, not to the account it mentions
+			txOp("CreateDenom(dq,B,data mentions A and C)", s(B), pnfttypes.NewMsgCreateDenomRequest("dq", "SYM", "name-dq", "desc", "uri", "hash", B.Bech,
+				`{"audit_contact":"`+A.Bech+`","backup":"`+C.Bech+`"}`)),
 		)
 	}
 	ops = append(ops, ctlOps(v.Ctl...)...)
